@@ -367,6 +367,18 @@ pub fn der_value() -> BoxedStrategy<Vec<u8>> {
 	.boxed()
 }
 
+/// Custom extensions whose OID is one rcgen also writes from a typed field, with content that is
+/// valid for that extension (a registeredID SAN, which `SanType` cannot express; a key usage; an
+/// extended key usage). Callers use these for what the typed API lacks.
+pub fn colliding_custom_ext() -> impl Strategy<Value = CustomExtSpec> {
+	use crate::der::{enc_oid, enc_seq, enc_tlv};
+	let san = enc_seq(&[enc_tlv(0x88, &[0x2a, 0x03, 0x04])]);
+	let ku = vec![0x03, 0x02, 0x05, 0xa0];
+	let eku = enc_seq(&[enc_oid(&[1, 3, 6, 1, 4, 1, 55555, 9])]);
+	(select(vec![(vec![2u64, 5, 29, 17], san), (vec![2, 5, 29, 15], ku), (vec![2, 5, 29, 37], eku)]), any::<bool>())
+		.prop_map(|((oid, content), critical)| CustomExtSpec { oid, critical, content: Hex(content), acme: false })
+}
+
 pub fn custom_ext(moderate: bool) -> impl Strategy<Value = CustomExtSpec> {
 	prop_oneof![
 		8 => (custom_ext_oid(moderate), any::<bool>(), prop_oneof![4 => der_value(), 1 => vec(any::<u8>(), 0..24)])
@@ -594,7 +606,16 @@ pub fn cert_spec(o: CertGenOpts) -> BoxedStrategy<CertSpec> {
 			vec(eku(o.moderate_oids, o.standard_ekus), 1..4),
 			nc_nonempty(o.dirname_subtrees),
 			crl_dps(1),
-			vec(custom_ext(o.moderate_oids), 1..3),
+			if o.conformant || o.moderate_oids {
+				vec(custom_ext(o.moderate_oids), 1..3).boxed()
+			} else {
+				(vec(custom_ext(false), 1..3), prop::option::weighted(0.08, colliding_custom_ext()))
+					.prop_map(|(mut v, c)| {
+						v.extend(c);
+						v
+					})
+					.boxed()
+			},
 		),
 	)
 		.prop_map(|(((not_before, not_after), serial, dn, kid, mask), (mut sans, is_ca, key_usages, ekus, nc, crl_dps, custom))| {
@@ -702,7 +723,10 @@ pub fn csr_spec(moderate: bool, standard_ekus: bool, with_custom: bool) -> Boxed
 		vec(san(moderate), 1..5),
 		key_usages(1),
 		vec(eku(moderate, standard_ekus), 1..4),
-		vec(custom_ext(moderate), 1..3),
+		(vec(custom_ext(moderate), 1..3), if moderate { Just(None).boxed() } else { prop::option::weighted(0.08, colliding_custom_ext()).boxed() }).prop_map(|(mut v, c)| {
+			v.extend(c);
+			v
+		}),
 		mask,
 		kid(),
 	)
